@@ -139,7 +139,7 @@ def prog_C16(ctx):
     def cov(ctx, st):
         ctx.cov.update(evaluations=st['Ops'], distinct_nontrivial=st['DistinctSizes'] + st['Histories'], exhaustive=False,
                        histories=st['Histories'], sends=st['Sends'], reads=st['Reads'], writers_max=st['MaxWriters'])
-    generic(ctx, ['Dc4bcVerif.Props.C16'], 'boarddiff', 'board', ['C16'],
+    generic(ctx, ['Dc4bcVerif.Props.C16', 'Dc4bcVerif.Props.SrcFacts'], 'boarddiff', 'board', ['C16'],
             ['translator: the two line limits (counting scanner and reading scanner) are read from storage/file_storage/fileStorage.go on this run',
              'correspondence boarddiff: file_storage.NewFileStorage/Send/GetMessages/IgnoreMessages with several writers on separate handles (goroutines; OS processes in the thorough tier) vs the Lean board model fed the observed linearisation',
              'trusted: flock(2) mutual exclusion between open file descriptions, O_APPEND single-write appends (no torn lines), bufio.Scanner token-limit semantics (modelled: a line is readable iff len+1 <= limit)'],
@@ -192,7 +192,7 @@ NODE_RULE = ('ceremonies (n,t) of the tier with one observed node; every message
 
 
 def prog_C09(ctx):
-    generic(ctx, ['Dc4bcVerif.Props.C09'], 'nodediff', 'node', ['C09'], NODE_TRUSTED, NODE_RULE, cov_from_stats=node_cov)
+    generic(ctx, ['Dc4bcVerif.Props.C09', 'Dc4bcVerif.Props.SrcFacts'], 'nodediff', 'node', ['C09'], NODE_TRUSTED, NODE_RULE, cov_from_stats=node_cov)
     # forged messages after a re-initialisation (the replay toggles verification for the unsigned 0.1.4 patches)
     ev = ctx.cov.get('evaluations', 0)
     rd = monitor_only(ctx, 'reinitdiff', ['C09'], 'after_reinitialisation')
@@ -201,7 +201,7 @@ def prog_C09(ctx):
 
 
 def prog_C10(ctx):
-    generic(ctx, ['Dc4bcVerif.Props.C10'], 'nodediff', 'node', ['C10'], NODE_TRUSTED, NODE_RULE, cov_from_stats=node_cov)
+    generic(ctx, ['Dc4bcVerif.Props.C10', 'Dc4bcVerif.Props.SrcFacts'], 'nodediff', 'node', ['C10'], NODE_TRUSTED, NODE_RULE, cov_from_stats=node_cov)
 
 
 def prog_C15(ctx):
